@@ -12,15 +12,15 @@ Definition eqb_reloaded (a b : reloaded) : bool :=
   | _, _ => false
   end.
 (* index of the first step on which model and implementation differ (-1: none) *)
-Fixpoint first_diff (i : Z) (s : st) (l : list (op * error * list wallet * reloaded)) : Z :=
+Fixpoint first_diff (i : Z) (s : st) (l : list (op * error * list wallet * reloaded * bool)) : Z :=
   match l with
   | [] => -1
-  | (o, e, m, r) :: rest =>
+  | (o, e, m, r, sok) :: rest =>
       let '(s', e') := step s o in
       if eqb_error e' e && eqb_view (mem s') m && eqb_reloaded (reload (disk s')) r
       then first_diff (i + 1) s' rest else i
   end.
-Definition corr_seq (l : list (op * error * list wallet * reloaded)) : bool := first_diff 0 init l =? -1.
+Definition corr_seq (l : list (op * error * list wallet * reloaded * bool)) : bool := first_diff 0 init l =? -1.
 Definition mism_seq := Eval vm_compute in failing corr_seq cases_seq.
 Print mism_seq.
 Definition mism_seq_steps := Eval vm_compute in map (first_diff 0 init) (filter (fun l => negb (corr_seq l)) cases_seq).
